@@ -74,7 +74,7 @@ class Checker:
     def loc(self, node):
         return self.fi.loc(node)
 
-    def gate(self, ev, guarded_ids):
+    def gate(self, ev, guarded_ids, user_value=False):
         """T-gate: returns (ok, detail, node) for 'the result of ev is tested, raised on truth, and guards guarded_ids'."""
         rt = self.result_term(ev)
         starts = normal_succ(ev["node"])
@@ -84,6 +84,13 @@ class Checker:
         if not self.gg.necessary(starts, guarded_ids, (rt, False)):
             return False, "a later phase is reachable without the returned error having been found absent (the result is dropped or not tested on some path)", ev["node"]
         byid = {n.id: n for n in self.cfg.nodes}
+        # presence, not truth: where the value may be the user's own exception object (``user_value``) it may be falsy
+        # (``__len__`` / ``__bool__``), and a falsy error must be raised like any other.  Errors the library constructs
+        # itself (TypeError(...)) are always truthy.
+        for nid, kind in fail_edges if user_value else ():
+            tnode = byid[nid]
+            if _tests_truth_of(strip_sites(self.flow.term(tnode.ast, tnode)), strip_sites(rt)):
+                return False, "the error returned by the helper is tested for TRUTH (`%s`), not for presence (`is not None`): an exception object that is falsy (it defines __len__ or __bool__) is dropped -- the violation is not raised and the call goes on" % first_line(tnode.stmt).rstrip(":"), tnode
         for nid, kind in fail_edges:
             tnode = byid[nid]
             for k, tgt in tnode.succ:
@@ -98,6 +105,20 @@ class Checker:
                 if not any(r.ast.exc is not None and self.flow.term(r.ast.exc, r) == rt for r in raises):
                     return False, "the error that is raised is not the value the helper returned", tnode
         return True, "result tested on the next branch; raised unchanged on truth; later phases only on its absence", ev["node"]
+
+
+def _tests_truth_of(t, rt):
+    """Does the test term ``t`` use ``rt`` as a truth value (anywhere outside an ``is [not] None`` comparison)?"""
+    if t == rt:
+        return True
+    if t[0] == "op":
+        if t[1] in ("cmp:Is", "cmp:IsNot") and len(t[2]) == 2 and t[2][0] == rt and t[2][1] == ("const", "None"):
+            return False
+        if t[1] in ("Not", "And", "Or"):
+            return any(_tests_truth_of(x, rt) for x in t[2])
+    if t[0] == "call" and t[1] == ("builtin", "bool") and len(t[2]) == 1:
+        return _tests_truth_of(t[2][0], rt)
+    return False
 
 
 def checkers(model):
@@ -138,7 +159,7 @@ def c01_gate(run, model, rule="C01.gate"):
             n = [x for x in ck.cfg.nodes if x.id == nd[0]][0]
             run.violation(rule, ck.fi.qual, "a path reaches `%s` without evaluating the preconditions first" % first_line(n.stmt), ck.loc(n), None, first_line(n.stmt))
             continue
-        ok, detail, node = ck.gate(pre, later)
+        ok, detail, node = ck.gate(pre, later, user_value=True)
         run.check(ok, rule, ck.fi.qual, detail, detail, ck.loc(node), None, first_line(node.stmt))
 
 
@@ -189,7 +210,7 @@ def c02_gate(run, model, rule="C02.gate"):
             run.violation(rule, ck.fi.qual, "a normal return is reachable after the body without evaluating the postconditions although the list is non-empty (an extra guard or early return)", ck.loc(post["node"]), None, first_line(post["node"].stmt))
             continue
         # (3) the result of POST gates the return
-        ok, detail, node = ck.gate(post, [ck.cfg.exit_return.id])
+        ok, detail, node = ck.gate(post, [ck.cfg.exit_return.id], user_value=True)
         # gate() checks that exit_return is not reachable on the fail side and that the guarded ids need the pass edge
         if not ok:
             run.violation(rule, ck.fi.qual, detail, ck.loc(node), None, first_line(node.stmt))
